@@ -1245,6 +1245,8 @@ func vcFamilyOracle(o *vOut, r *vRand) {
 		o.fail(class, detail)
 	}
 	mp := &vcMpCorr{o: o}
+	vcEmptyOracle(o, r, mp)
+	mp.last = ""
 	for round := 0; round < rounds; round++ {
 		nl := append(append(append(vcCorpusNLRIs(), vcBoundaryNLRIs()...), vcAddrNLRIs()...), vC04GenNLRIs(r)...)
 		fams := map[Family]bool{}
@@ -1317,6 +1319,7 @@ func vcFamilyOracle(o *vOut, r *vRand) {
 
 		attrCases := append(append(vcCorpusAttrs(), vcBoundaryAttrs()...), vcPairAttrs(r, nl)...)
 		attrCases = append(attrCases, vcAddrAttrs()...)
+		attrCases = append(attrCases, vcEmptyAttrs()...)
 		attrCases = append(attrCases, vC04GenAttrs(r)...)
 		for _, c := range attrCases {
 			c := c
@@ -1451,7 +1454,7 @@ func vcFamilyOracle(o *vOut, r *vRand) {
 			}
 		}
 
-		caps := append(vcBoundaryCaps(), vC04GenCaps(r)...)
+		caps := append(append(vcBoundaryCaps(), vcEmptyCaps()...), vC04GenCaps(r)...)
 		for _, c := range caps {
 			c := c
 			tag := fmt.Sprintf("cap%d", c.Code())
